@@ -17,7 +17,7 @@ from .refmodels.fs import MemFS
 from .tape import OwnedRandom
 from . import targets
 
-OPS = ["S", "V0", "L0", "V1", "L1"]
+OPS = ["S", "V0", "L0", "V1", "L1"]   # "R" (a complete run() on the same object) appears in the longer patterns only
 
 
 def valid(seq):
@@ -53,11 +53,14 @@ def patterns():
             for c in (0, 1, 2):
                 out.append(("V0",) + ("S",) * a + ("V1", "L0") + ("S",) * b + ("L1",) + ("S",) * c)
                 out.append(("S", "V0") + ("S",) * a + ("V1", "L0") + ("S",) * b + ("L1",) + ("S",) * c)
+    # complete run() calls on an object that is already in use (a second run continues from the stored history)
+    out += [("R",), ("R", "R"), ("S", "R"), ("R", "S", "S"), ("R", "V0", "R", "L0", "S"), ("V0", "R", "L0", "R"), ("R", "R", "S")]
     return out
 
 
 class Session:
-    def __init__(self, cfg, base, monitors, warm=3):
+    def __init__(self, cfg, base, monitors, warm=3, reseed=True):
+        self.reseed = reseed
         self.fs = MemFS()
         self.fs.mkdir("/memfs/sess", parents=True, exist_ok=True)
         self.p = Probe(cfg, base=base, monitors=monitors, fs=self.fs, max_iters=10 ** 6)
@@ -85,6 +88,8 @@ class Session:
                     self.opno += 1
                     if op == "S":
                         p.sampler.sample()
+                    elif op == "R":
+                        p.sampler.run(n_total=p.cfg.get("run_total", 3 * p.cfg["n_particles"]), progress=False)
                     elif op[0] == "V":
                         p.sampler.save_state(f"/memfs/sess/slot{op[1]}.state")
                     elif op[0] == "L":
@@ -104,7 +109,10 @@ class Session:
         p = self.p
         p.iters += 1
         p.in_iter = True
-        p.tape.rs.seed(iter_seed(self.base, self.opno, "op"))
+        if self.reseed:
+            p.tape.rs.seed(iter_seed(self.base, self.opno, "op"))
+        if getattr(self, "on_iteration_start", None) is not None:
+            self.on_iteration_start(self)
 
 
 def record_rows_ok(cfg, u, x, logl, blobs, want_blobs):
